@@ -504,35 +504,101 @@ func c01NullSkip(c *Ctx) {
 			c.bad("AssembleFile:isBlank", st.Pos(), "isBlank is written outside AssembleFile's own body")
 			continue
 		}
-		if cst, ok := st.Val.(*ssa.Const); ok && !isTrueConst(cst) {
+		sites, okS := trueSources(st.Val, st, 0)
+		if !okS {
+			c.bad("AssembleFile:isBlank", st.Pos(), "isBlank is set from a value whose origin is not understood (neither a constant nor the result of a helper that returns constants)")
+			n++
 			continue
 		}
-		n++
-		created, _ := guarded(fn, st, func(iff *ssa.If) (bool, bool) {
-			if hasOrigin(iff.Cond, func(o string) bool { return o == "call:os.IsNotExist#0" }) {
-				_, truth, _ := cmpOf(iff.Cond)
-				return truth, !truth
-			}
-			return false, false
-		})
-		createdOK := false
-		if created {
-			okC, _ := guarded(fn, st, nilEdgeOf(func(o string) bool { return o == "call:os.Create#1" }))
-			createdOK = okC
-		}
-		empty, _ := guarded(fn, st, func(iff *ssa.If) (bool, bool) {
-			eqOnTrue, ok := equalEdge(iff, originHas("FileInfo).Size#0"), func(v ssa.Value) bool { return hasOrigin(v, func(o string) bool { return o == "const:0" }) })
-			if !ok {
+		for _, site := range sites {
+			n++
+			created, _ := guarded(site.Parent(), site, func(iff *ssa.If) (bool, bool) {
+				if hasOrigin(iff.Cond, func(o string) bool { return o == "call:os.IsNotExist#0" }) {
+					_, truth, _ := cmpOf(iff.Cond)
+					return truth, !truth
+				}
 				return false, false
+			})
+			createdOK := false
+			if created {
+				okC, _ := guarded(site.Parent(), site, nilEdgeOf(func(o string) bool { return o == "call:os.Create#1" }))
+				createdOK = okC
 			}
-			return eqOnTrue, !eqOnTrue
-		})
-		c.verdict(createdOK || empty, "AssembleFile:isBlank", st.Pos(), "isBlank=true only after the target was created (IsNotExist + Create ok) or found empty (Size()==0)",
-			"isBlank is set for a target that may hold old data: null sections and verified-reuse would be skipped over stale bytes")
+			empty, _ := guarded(site.Parent(), site, func(iff *ssa.If) (bool, bool) {
+				eqOnTrue, ok := equalEdge(iff, originHas("FileInfo).Size#0"), func(v ssa.Value) bool { return hasOrigin(v, func(o string) bool { return o == "const:0" }) })
+				if !ok {
+					return false, false
+				}
+				return eqOnTrue, !eqOnTrue
+			})
+			c.verdict(createdOK || empty, "AssembleFile:isBlank", site.Pos(), "isBlank=true only after the target was created (IsNotExist + Create ok) or found empty (Size()==0)",
+				"isBlank is set for a target that may hold old data: null sections and verified-reuse would be skipped over stale bytes")
+		}
 	}
 	if n == 0 {
 		c.bad("AssembleFile:isBlank", fn.Pos(), "isBlank is never set")
 	}
+}
+
+// trueSources lists the places at which a boolean value becomes true: the store or return of the
+// constant true, the jump into a phi that carries it, looking through locals and through the
+// results of new helper functions.  ok is false when a contribution is not a constant.
+func trueSources(v ssa.Value, at ssa.Instruction, depth int) (sites []ssa.Instruction, ok bool) {
+	if depth > 6 {
+		return nil, false
+	}
+	switch x := v.(type) {
+	case *ssa.Const:
+		if isTrueConst(x) {
+			return []ssa.Instruction{at}, true
+		}
+		return nil, true
+	case *ssa.Phi:
+		for i, e := range x.Edges {
+			pred := x.Block().Preds[i]
+			if e == v || len(pred.Instrs) == 0 {
+				continue
+			}
+			s, okE := trueSources(e, pred.Instrs[len(pred.Instrs)-1], depth+1)
+			if !okE {
+				return nil, false
+			}
+			sites = append(sites, s...)
+		}
+		return sites, true
+	case *ssa.Extract:
+		call, isCall := x.Tuple.(*ssa.Call)
+		if !isCall {
+			return nil, false
+		}
+		h := call.Call.StaticCallee()
+		if h == nil || !newHelpers[h] || len(h.Blocks) == 0 {
+			return nil, false
+		}
+		for _, r := range returnsOf(h) {
+			if x.Index >= len(r.Results) {
+				return nil, false
+			}
+			s, okR := trueSources(unspill(r, r.Results[x.Index]), r, depth+1)
+			if !okR {
+				return nil, false
+			}
+			sites = append(sites, s...)
+		}
+		return sites, true
+	case *ssa.UnOp:
+		if a, isAlloc := x.X.(*ssa.Alloc); isAlloc && x.Op == token.MUL {
+			for _, st := range storesTo(a) {
+				s, okS := trueSources(st.Val, st, depth+1)
+				if !okS {
+					return nil, false
+				}
+				sites = append(sites, s...)
+			}
+			return sites, true
+		}
+	}
+	return nil, false
 }
 
 func stripNot(v ssa.Value) ssa.Value {
